@@ -123,6 +123,7 @@ def olc_side(rule, what='the olc_db instantiation'):
     return R(run)
 
 
+KEYBUF = ('unodb::detail::key_buffer',)
 SEQ_POINT = [R(point.noeff1), R(point.keyeq1), R(find.find1), R(find.ord1), R(slot.slot1), R(point.pair1), R(point.copy1), R(lambda cfg: point.desc1(cfg, which='point')), R(prefix.pfx1), R(prefix.pfx2), R(lambda cfg: point.type1(cfg, which='point')), R(lambda cfg: nodes.mut1(cfg, parts=('count', 'clear'))), R(nodes.idx1)]
 SEQ_SCAN = [R(seq.cmp3), R(enc.cmp_shape), R(enum1.enum1), R(iterrules.iter2), R(lambda cfg: point.desc1(cfg, which='seek')), R(iterrules.vis1), R(lambda cfg: point.type1(cfg, which='scan'))]
 
@@ -140,9 +141,28 @@ def _olc_scan_roots(m):
 POINT = 'olc_db get / insert / remove and everything they call'
 SCAN = 'olc_db iterator and scan functions and everything they call'
 
+def simd_axis_sse(ctx, tier, olc_only=False):
+    """the vectorised node searches in the SSE4.2 build (the per-configuration rule lists run on the AVX2 baseline): the same
+    specification must be met by the code compiled without -mavx2"""
+    from .report import RuleResult
+    res = RuleResult('SIMD-sse', 'the vectorised node searches (SLOT-1 first null slot of I48, FIND-1 child lookup of I4 / I16, ORD-1 insert position) meet their specification in the build without AVX2 too (SSE4.2 branches of the same functions)')
+    names = [extract.flip(B, 'sse41')] + ([extract.flip(D, 'sse41')] if tier == 'thorough' else [])
+    ctx.ensure(names)
+    for n in names:
+        cfg = ctx.config(n)
+        for fn in (slot.slot1, find.find1, find.ord1):
+            r = fn(cfg)
+            if olc_only:
+                r.findings = [x for x in r.findings if _is_olc_sig(x.fn_sig)]
+            r.instances = {'%s [%s]' % (k, n): v for k, v in r.instances.items()}
+            res.merge(r)
+    return res
+
+
 PROPERTIES['C01'] = {
     'level': 'other',
     'configs': two,
+    'multi_rules': [R(simd_axis_sse)],
     'rules': [R(point.noeff1), R(point.keyeq1), R(point.leaf1), R(point.leaf2), R(point.leaf3), R(point.root1), R(point.split1), R(point.pair1), R(point.copy1), R(point.desc1), R(find.find1), R(find.ord1), R(slot.slot1), R(prefix.pfx1), R(prefix.pfx2), R(lambda cfg: point.type1(cfg, which='point')), R(lambda cfg: nodes.mut1(cfg, parts=('count', 'clear'))), R(nodes.idx1),
               advisory(R(lambda cfg: iterrules.sib1_point(cfg, accounting=False))), R(lambda cfg: olcrules.lock6(cfg, kinds=('leaf',))), R(olcrules.lock6b)],
     'technique': 'static analysis: path-sensitive effect flow with callee summaries (result/effect correlation), control-dependence rules (full-key comparison guards), writer/reader expression agreement, abstract interpretation of the node search and key-prefix arithmetic in byte-vector / lane-wise three-valued domains with exhaustively enumerated lengths and counts, sibling differencing db vs olc_db',
@@ -151,7 +171,7 @@ PROPERTIES['C01'] = {
                    'KEYEQ-1 every "key present" decision (value returned by get, duplicate rejected by insert, leaf unlinked by remove and by the remove helpers of every node class) is control-dependent on a full comparison of the reached leaf\'s key with the operation\'s own key. '
                    'LEAF-1 the leaf constructor copies key and value to exactly the ranges the getters read, sized from its arguments, and the allocation is sized from the same numbers; LEAF-2 leaves are immutable after construction (const fields, const methods, no write through `data` elsewhere); LEAF-3 no cast drops const from byte / leaf pointers (positive control in the analysis unit) - so an existing entry and any value view onto it cannot change while the leaf exists; '
                    'LOCK-6 (leaf sites only) leaves of the OLC index are freed only through QSBR (view valid until the next quiescent state), LOCK-6b the reclaiming deleters defer the very node they were given. ROOT-1 empty() is "root is null" and clear() stores null into the root on every path. '
-                   'FIND-1 find_child of each node class returns exactly the child stored for the key byte: I4 / I16 by lane-wise three-valued evaluation of the SSE search with child count and match position enumerated and stale slots free, I48 / I256 by term comparison; SLOT-1 I48 files a new child in the first null slot of its pointer array (lane-wise evaluation of the SSE4.2 / AVX2 / scalar search, first null slot enumerated 0..47); ORD-1 the dense classes insert at the rank of the new key byte (sortedness preserved); PAIR-1 every function of the dense classes writes the key array and the child array in lock-step (same target and source slots), so slot i of one always describes slot i of the other. '
+                   'FIND-1 find_child of each node class returns exactly the child stored for the key byte: I4 / I16 by lane-wise three-valued evaluation of the SSE search with child count and match position enumerated and stale slots free, I48 / I256 by term comparison; SLOT-1 I48 files a new child in the first null slot of its pointer array (lane-wise evaluation of the SSE4.2 / AVX2 / scalar search, first null slot enumerated 0..47; FIND-1 / ORD-1 / SLOT-1 are evaluated in the configuration without AVX2 as well - the SSE4.2 branches are dead code in the baseline build); ORD-1 the dense classes insert at the rank of the new key byte (sortedness preserved); PAIR-1 every function of the dense classes writes the key array and the child array in lock-step (same target and source slots), so slot i of one always describes slot i of the other. '
                    'DESC-1 the descent of get / insert / remove / seek compares each node prefix with the shifted working copy of the key, shifts it by the prefix length, selects the child by its first byte and shifts by one, in this order, the tracked depth moving in step; COPY-1 the grow / shrink initialisers walk the slot arrays of their source node from slot 0 to the array size; '
                    'SPLIT-1 node splits dispatch on the bytes at the split position (leaf split: k1[depth+L] / shifted_k2[L]; prefix split: prefix[len] read before the cut by len+1, key[depth+len]); CAP-1 / CAP-2 the interval obligations "longest common prefix of two distinct keys <= key_prefix_capacity" at the leaf split and "merged prefix <= capacity" at the collapse hold for 64-bit keys and FAIL for byte-string keys - two genuine defects of the pinned tree, listed in known_findings.json and printed as KNOWN-FINDING (replays triage/d1_long_prefix.cpp, triage/d1b_collapse_overflow.cpp). '
                    'MUT-1 effect summaries of the per-class mutators: add_to_nonfull stores (count it was given) + 1 into children_count exactly once on every path, remove stores (old count) - 1, the sparse classes clear the slot they free (I48: child_indexes[i] = empty_child and the pointer slot nulled, I256: children[i] = nullptr); IDX-1 std::array subscripts under counting loops stay inside the slot arrays (constant bounds evaluated, child-count bounds must be strict). TYPE-1 a tagged node pointer is reinterpreted as a leaf only where its type tag was tested to be LEAF and as an inner node only where it was tested not to be (control dependence on the tag test, through locals and out-parameters holding the tag). PFX-1 key_prefix::cut / prepend are the specified byte permutations for every combination of lengths and every content of the stale bytes; PFX-2 shared_len is min(first differing byte, clamp). '
@@ -162,14 +182,14 @@ PROPERTIES['C01'] = {
 PROPERTIES['C02'] = {
     'level': 'other',
     'configs': two,
-    'rules': [R(seq.cmp1), R(enc.cmp_shape), R(seq.cmp3), R(seq.iter1), R(enum1.enum1), R(iterrules.iter2), R(iterrules.iter3), R(iterrules.iter4), R(iterrules.iter5), R(lambda cfg: point.desc1(cfg, which='seek')), R(iterrules.vis1), R(lambda cfg: point.type1(cfg, which='scan')), advisory(R(iterrules.sib1))],
+    'rules': [R(seq.cmp1), R(enc.cmp_shape), R(seq.cmp3), R(seq.iter1), R(enum1.enum1), R(iterrules.iter2), R(iterrules.iter3), R(iterrules.iter4), R(iterrules.iter5), R(lambda cfg: point.desc1(cfg, which='seek')), R(iterrules.vis1), R(lambda cfg: point.type1(cfg, which='scan')), R(lambda cfg: enc.enc6(cfg, classes=KEYBUF)), R(lambda cfg: enc.enc7(cfg, classes=KEYBUF)), advisory(R(iterrules.sib1))],
     'technique': 'static analysis: forward dataflow over event-CFGs (comparator operands, sibling-step consistency), scan-descriptor extraction per node-class enumeration method compared with a semantics table, must-pass-through rule for the fall-off branch of seek, path-class differencing of the db and olc_db iterators',
     'explanation': 'Static necessary conditions of "scans visit exactly the interval, in order", decided on the clang-instantiated code of db, mutex_db and olc_db for both key kinds: '
                    'CMP-1 every byte comparator is applied to key bytes, never to the object representation of a pointer-carrying object; CMP-2 detail::compare is memcmp over the common length, then shorter-first on a tie (evaluated for all sign / length cases); CMP-3 every three-way key comparison (art_key / leaf / iterator cmp) takes its result from the byte-wise comparator or another cmp, never from relational operators on the byte-swapped key word; '
                    'ITER-1 when an iterator function computes a sibling with next/prior/gte_key_byte/lte_key_byte and the answer holds a value, the child it descends into is the one the answer names; '
                    'ENUM-1 each of the 96 per-node enumeration methods (begin/last/next/prior/gte_key_byte/lte_key_byte x 4 node classes x instantiations) is summarised by a scan descriptor (start, direction, bound, predicate, returned slot) and compared with the ART semantics table; '
                    'ITER-2 the scan drivers position with first / seek(fwd) resp. last / seek(rev), step with next resp. prior, stop at cmp(to) < 0 resp. > 0 (from inclusive, to exclusive), call the visitor once per entry and halt when it asks; '
-                   'ITER-3 when seek falls off an inner node (no child at/after resp. at/before the key byte) the first stack operation is the sibling step on the parent entry, never a pop; ITER-4 direction table: forward functions use forward primitives only and vice versa, and in seek every primitive sits under the direction flag and comparison sign the table demands (an opposite-direction descent is followed by a step in the seek direction); ITER-5 net stack effect of the step functions (replace the parent entry before a descent, remove exactly one entry otherwise); DESC-1 (seek) the descent of seek consumes the key consistently; VIS-1 the visitor is shown the key / value of the leaf on top of the iterator stack; TYPE-1 the iterator functions reinterpret a node pointer as a leaf exactly where its tag was tested LEAF; SIB-1 (ADVISORY only, evidence notes, never the verdict) the db and olc_db iterators make the same algorithmic decisions once lock events are projected away.',
+                   'ITER-3 when seek falls off an inner node (no child at/after resp. at/before the key byte) the first stack operation is the sibling step on the parent entry, never a pop; ITER-4 direction table: forward functions use forward primitives only and vice versa, and in seek every primitive sits under the direction flag and comparison sign the table demands (an opposite-direction descent is followed by a step in the seek direction); ITER-5 net stack effect of the step functions (replace the parent entry before a descent, remove exactly one entry otherwise); DESC-1 (seek) the descent of seek consumes the key consistently; VIS-1 the visitor is shown the key / value of the leaf on top of the iterator stack; TYPE-1 the iterator functions reinterpret a node pointer as a leaf exactly where its tag was tested LEAF; ENC-6 / ENC-7 (key_buffer part) the buffer in which the iterator assembles the key it reports reserves before it appends (one byte: ensure_available(1) then buf[off++] = v; a span: ensure_available(n), memcpy(buf + off, data, n), off += n), pop(n) is off -= n, the view handed out is (buf, off), and the growth helper keeps the bytes already there; SIB-1 (ADVISORY only, evidence notes, never the verdict) the db and olc_db iterators make the same algorithmic decisions once lock events are projected away.',
     'decides': 'address independence of comparisons; sibling-step consistency; per-node ordered enumeration; bound handling of the scan drivers; seek fall-off; db/olc agreement',
     'does_not_decide': 'completeness of seek\'s case analysis for every tree shape and bound as a theorem; delivered key lists as values',
 }
@@ -202,6 +222,7 @@ def simd_axis(ctx, tier):
 PROPERTIES['C03'] = {
     'level': 'other',
     'configs': two,
+    'multi_rules': [R(lambda ctx, tier: simd_axis_sse(ctx, tier, olc_only=True))],
     'rules': [scoped(olc('LOCK-1'), _olc_point_roots, POINT), scoped(olc('LOCK-2'), _olc_point_roots, POINT), scoped(olc('LOCK-3'), _olc_point_roots, POINT), scoped(olc('LOCK-5'), _olc_point_roots, POINT),
               scoped(olc('LOCK-9'), _olc_point_roots, POINT), scoped(olc('ROLE'), _olc_point_roots, POINT), scoped(R(point.lock11), _olc_point_roots, POINT), scoped(R(couple.lock12), _olc_point_roots, POINT), scoped(R(couple.lock13), _olc_point_roots, POINT),
               R(lockword.lw)] + [olc_side(r_) for r_ in SEQ_POINT],
@@ -232,12 +253,12 @@ PROPERTIES['C09'] = {
     'level': 'other',
     'configs': two,
     'rules': [scoped(olc('LOCK-1'), _olc_scan_roots, SCAN), scoped(olc('LOCK-7'), _olc_scan_roots, SCAN), scoped(olc('LOCK-8'), _olc_scan_roots, SCAN), scoped(olc('LOCK-9'), _olc_scan_roots, SCAN), scoped(olc('ROLE'), _olc_scan_roots, SCAN),
-              scoped(R(seq.iter1), _olc_scan_roots, SCAN), scoped(R(iterrules.reseek), _olc_scan_roots, SCAN), scoped(R(iterrules.iter3), _olc_scan_roots, SCAN), scoped(R(iterrules.iter4), _olc_scan_roots, SCAN), scoped(R(iterrules.iter5), _olc_scan_roots, SCAN), scoped(R(point.lock11), _olc_scan_roots, SCAN), scoped(R(couple.lock12), _olc_scan_roots, SCAN), scoped(R(couple.lock13), _olc_scan_roots, SCAN),
+              scoped(R(seq.iter1), _olc_scan_roots, SCAN), scoped(R(iterrules.reseek), _olc_scan_roots, SCAN), scoped(R(iterrules.iter3), _olc_scan_roots, SCAN), scoped(R(iterrules.iter4), _olc_scan_roots, SCAN), scoped(R(iterrules.iter5), _olc_scan_roots, SCAN), scoped(R(point.lock11), _olc_scan_roots, SCAN), scoped(R(couple.lock12), _olc_scan_roots, SCAN), scoped(R(couple.lock13), _olc_scan_roots, SCAN), R(lambda cfg: enc.enc6(cfg, classes=KEYBUF)), R(lambda cfg: enc.enc7(cfg, classes=KEYBUF)),
               R(lockword.lw)] + [olc_side(r_) for r_ in SEQ_SCAN],
     'technique': 'static analysis: relational typestate dataflow over the OLC iterator functions (section validation, stack-entry/version pairing, lock coupling), must-pass-through rules for the re-seek path and the fall-off branch of seek',
     'explanation': 'Structural conditions of concurrent-scan correctness on the OLC iterator functions: LOCK-1 (snapshots validated before use / before a non-restart return), LOCK-7b (no validation on an ended, empty or moved-from section), '
                    'LOCK-8 (every stack entry is pushed with the version of the read section opened on the node it describes, so a later rehydrate/check validates the right lock word), LOCK-9 (hand-over-hand: the child section is opened before the parent section is given up), ROLE (the traversals receive the section their node argument was read under), ITER-1 (the sibling computed is the sibling visited, also on the re-seek path), '
-                   'RESEEK-1 (when a step finds its stack invalidated it re-seeks to the key it stood on, captured before anything is unwound, in the direction of the step, and steps past it exactly when the re-seek found that key again), ITER-3 (when seek falls off an inner node the first stack operation is the sibling step on the parent entry, never a pop), ITER-4 / ITER-5 (direction table and net stack effect of the OLC iterator functions), LOCK-11 (a failed lock step or a failed push leads to the restart result only), LOCK-12 / LOCK-13 (the root pointer is loaded inside its section; nothing definitive while an open section is stale - see C03). Verdicts are scoped to the callee closure of the olc_db iterator and scan functions (the sequential iterator is C02); the lock-word premises LW-1..5 and the OLC-side findings of CMP-2/3, ENUM-1, ITER-2, DESC-1 (seek), VIS-1, TYPE-1 are reported here too.',
+                   'RESEEK-1 (when a step finds its stack invalidated it re-seeks to the key it stood on, captured before anything is unwound, in the direction of the step, and steps past it exactly when the re-seek found that key again), ITER-3 (when seek falls off an inner node the first stack operation is the sibling step on the parent entry, never a pop), ITER-4 / ITER-5 (direction table and net stack effect of the OLC iterator functions), LOCK-11 (a failed lock step or a failed push leads to the restart result only), LOCK-12 / LOCK-13 (the root pointer is loaded inside its section; nothing definitive while an open section is stale - see C03). Verdicts are scoped to the callee closure of the olc_db iterator and scan functions (the sequential iterator is C02); the lock-word premises LW-1..5 and the OLC-side findings of CMP-2/3, ENUM-1, ITER-2, DESC-1 (seek), VIS-1, TYPE-1 and the key-buffer rules ENC-6 / ENC-7 (the OLC iterator assembles its keys in the same buffer class) are reported here too.',
     'decides': 'snapshot validation, stack-entry/version pairing and sibling-step consistency in try_first/last/next/prior/seek and the traversals',
     'does_not_decide': 'ordering / completeness of delivered keys under interleavings',
 }
